@@ -34,7 +34,7 @@ func (g *G) KeyArg() *gen.Node {
 	}
 }
 
-var grokPatterns = []string{"%{INT:n}", "%{WORD:w} %{INT:num:int}", "%{NUMBER:f:float}", "%{GREEDYDATA:rest}", "%{IP:ip}", "(?P<x>a+)b", "%{DATA:d:bool}", "%{NOTSPACE:s:str} %{NOTSPACE}"}
+var grokPatterns = []string{"%{INT:n}", "%{WORD:w} %{INT:num:int}", "%{NUMBER:f:float}", "%{GREEDYDATA:rest}", "%{IP:ip}", "(?P<x>a+)b", "%{DATA:d:bool}", "%{NOTSPACE:s:str} %{NOTSPACE}", "(?:%{INT:code:int} )?%{WORD:w}", "%{WORD:verb} (?:%{NUMBER:bytes:float}|-)", "%{WORD:a}(?: %{WORD:b})?"}
 var formats = []string{"%v", "%d-%s", "%s", "%5.2f", "%%", "%v %v %v", "%d", "%q", "%x", "plain", "%!", "%[3]v"}
 
 // BuiltinCall draws a call to one of the builtins in an argument shape its checker accepts.
